@@ -4,6 +4,7 @@ import SslModel.Model.Pratt
 import SslModel.Gen.PrattTable
 import SslModel.Model.Seq
 import SslModel.Model.TyIO
+import SslModel.Model.SpecIO
 /-! Model side of the correspondence: one request per line on stdin, one canonical answer per
     line on stdout.  Import-free apart from the model, so it links as a native executable. -/
 open Ssl
@@ -134,7 +135,17 @@ def handleTy (rest : String) : String :=
     | none => "(bad-type)"
   | _ => "(bad-request)"
 
+/-- `prog <flags> <fuel> (S*)` : run a statement list through the reference semantics -/
+def handleProg (rest : String) : String :=
+  match Sexp.parseMany rest with
+  | [.atom flags, .atom fuel, .list stmts] =>
+    match stmts.mapM Spec.exprOf, fuel.toNat? with
+    | some ss, some fuel => Spec.runProgram fuel (flags == "std") ss
+    | _, _ => "(bad-program)"
+  | _ => "(bad-request)"
+
 def handle (line : String) : String :=
+  if line.startsWith "prog " then handleProg ((line.drop 5).trimAscii.toString) else
   if line.startsWith "ty " then handleTy ((line.drop 3).trimAscii.toString) else
   match line.trimAscii.toString.splitOn " " with
   | "pratt" :: rules => handlePratt rules
